@@ -60,15 +60,19 @@ LookupStart(p) ==      \* start -> iam.lookup : cache.get
     /\ pc[p] = "start" /\ Op(p) = "lookup"
     /\ Invoke(p) /\ loc' = [loc EXCEPT ![p] = IF cache = NoEntry THEN Miss ELSE [kind |-> "hit", v |-> cache.v, full |-> cache.full, g |-> 0]]
     /\ Goto(p, "looked") /\ Tick(p) /\ UNCHANGED <<store, cache, gen>>
-LookupFetch(p) ==      \* iam.lookup -> reply (hit) | iam.fetched (miss, found) | reply NoSuchUser
+LookupFetch(p) ==      \* iam.lookup -> reply (hit) | iam.fetched (miss, found) | iam.missed (miss, no such account)
     /\ pc[p] = "looked"
     /\ IF loc[p].kind = "hit"
          THEN \* the entry copied by cache.get is what is returned
               Return(p, [NoOp EXCEPT !.res = "ok", !.v = loc[p].v, !.full = loc[p].full]) /\ Goto(p, "done") /\ UNCHANGED loc
          ELSE IF store = "absent"
-                THEN Return(p, [NoOp EXCEPT !.res = "absent"]) /\ Goto(p, "done") /\ UNCHANGED loc
+                THEN Goto(p, "missed") /\ UNCHANGED <<loc, ops>>
                 ELSE loc' = [loc EXCEPT ![p] = [kind |-> "miss", v |-> store, full |-> TRUE, g |-> gen]] /\ Goto(p, "fetched") /\ UNCHANGED ops
     /\ Tick(p) /\ UNCHANGED <<store, cache, gen>>
+LookupMissed(p) ==     \* iam.missed -> reply NoSuchUser : the store had no such account; nothing is cached
+    /\ pc[p] = "missed"
+    /\ Return(p, [NoOp EXCEPT !.res = "absent"]) /\ Goto(p, "done") /\ Tick(p)
+    /\ UNCHANGED <<store, cache, gen, loc>>
 LookupFill(p) ==       \* iam.fetched -> reply : cache.set(fetched value)
     /\ pc[p] = "fetched"
     /\ cache' = IF NoStaleFill /\ gen # loc[p].g THEN cache ELSE [v |-> loc[p].v, full |-> TRUE]
@@ -122,7 +126,7 @@ DeleteCache(p) ==      \* iam.deleted -> reply
     /\ Return(p, [NoOp EXCEPT !.res = "ok"]) /\ Goto(p, "done") /\ Tick(p)
     /\ UNCHANGED <<store, loc>>
 
-Step(p) == LookupStart(p) \/ LookupFetch(p) \/ LookupFill(p) \/ CreateStore(p) \/ CreateCache(p)
+Step(p) == LookupStart(p) \/ LookupFetch(p) \/ LookupMissed(p) \/ LookupFill(p) \/ CreateStore(p) \/ CreateCache(p)
            \/ UpdateBegin(p) \/ UpdateStore(p) \/ UpdateCache(p) \/ DeleteBegin(p) \/ DeleteStore(p) \/ DeleteCache(p)
 AllDone == \A p \in Proc : pc[p] = "done"
 
